@@ -265,23 +265,35 @@ abbrev VA := List (Nat × Option (Int × Int))
 theorem loop5_unfold (mget : (Int × Int) → Except String (List (Nat × Int))) (fuel : Nat)
     (G : List (Nat × List (Int × Int))) (L : List ((Int × Int) × List (Nat × List (Int × Int)))) (A : List (Nat × Int))
     (xy : Int × Int) (rp : List (Nat × Int)) (va : VA) (res : Nat) (d : Int) :
-    PyFun.allocate_loop5 mget fuel G L A xy (false, none, rp, va) (res, d) =
+    ∃ vaE : VA, PyFun.allocate_loop5 mget fuel G L A xy (false, none, rp, va) (res, d) =
       match pyWhile PyFun.allocate_loop6_cond (PyFun.allocate_loop6 mget G L A xy res d) fuel
           ((false, none, none, true, rp) : WSt) with
       | none => (true, some (.error "fuel"), rp, va)
       | some (_, some r, _, _, rp') => (true, some r, rp', va)
       | some (_, none, pa, _, rp') =>
         match pyOptGet pa with
-        | .error e => (true, some (.error e), rp', pyDictSet va res pa)
+        | .error e => (true, some (.error e), rp', vaE)   -- unreachable (`proposed_allocation` is a slice here)
         | .ok t => (false, none, pyDictSet rp' res t.2, pyDictSet va res pa) := by
-  unfold PyFun.allocate_loop5
-  simp only [Bool.false_eq_true, if_false]
-  generalize pyWhile PyFun.allocate_loop6_cond _ fuel _ = w
-  rcases w with _ | ⟨b, r, pa, po, rp'⟩
-  · rfl
-  · cases r with
-    | some r => rfl
-    | none => simp only []; cases pyOptGet pa <;> rfl
+  -- `vaE`: whichever of the two last statements of the loop body comes first in the source
+  first
+  | (refine ⟨pyDictSet va res none, ?_⟩
+     unfold PyFun.allocate_loop5
+     simp only [Bool.false_eq_true, if_false]
+     generalize pyWhile PyFun.allocate_loop6_cond _ fuel _ = w
+     rcases w with _ | ⟨b, r, pa, po, rp'⟩
+     · rfl
+     · cases r with
+       | some r => rfl
+       | none => cases pa <;> rfl)
+  | (refine ⟨va, ?_⟩
+     unfold PyFun.allocate_loop5
+     simp only [Bool.false_eq_true, if_false]
+     generalize pyWhile PyFun.allocate_loop6_cond _ fuel _ = w
+     rcases w with _ | ⟨b, r, pa, po, rp'⟩
+     · rfl
+     · cases r with
+       | some r => rfl
+       | none => cases pa <;> rfl)
 
 theorem gen_allocOne {inp : Input} {G : List (Nat × List (Int × Int))}
     {L : List ((Int × Int) × List (Nat × List (Int × Int)))} {A : List (Nat × Int)} (T : Tables inp G L A)
@@ -302,7 +314,8 @@ theorem gen_allocOne {inp : Input} {G : List (Nat × List (Int × Int))}
     apply pyWhile_stop
     subst h
     simp [PyFun.allocate_loop6_cond]
-  rw [loop5_unfold]
+  obtain ⟨vaE, hu⟩ := loop5_unfold (mgetOf inp.machine) (f + 1) G L A xy rp va res d
+  rw [hu]
   by_cases hk : inp.machine.chipResources.any (·.1 == res) = true
   swap
   · -- resource_pointers[resource]: KeyError
